@@ -90,6 +90,16 @@ fn run_insertion_cost(ctx: &RunCtx, report: &mut Report) {
             }
         }
     }
+    // components which differ by less than machine epsilon (neighbouring floats, 0 vs 1e-17): order laws only, sums of such
+    // values are not exact so the arithmetic laws are not judged on them
+    let n_exact = vectors.len();
+    let near = [0.0f64, 1e-17, 0.25, f64::from_bits(0.25f64.to_bits() + 1), 0.5, f64::from_bits(0.5f64.to_bits() + 1), 1.0 - f64::EPSILON / 2., 1.0];
+    for a in near {
+        vectors.push(vec![a]);
+        for b in [1., 5., -1.] {
+            vectors.push(vec![a, b]);
+        }
+    }
     let costs: Vec<InsertionCost> = vectors.iter().map(|v| InsertionCost::new(v)).collect();
     let n = vectors.len();
     report.set("cost_vectors", n as u64);
@@ -121,6 +131,9 @@ fn run_insertion_cost(ctx: &RunCtx, report: &mut Report) {
                     if expected != c {
                         errs.push(("cost:lexicographic", format!("cmp={} numeric-lexicographic={}", ord_name(c), ord_name(expected))));
                     }
+                }
+                if i >= n_exact || j >= n_exact {
+                    return (c, errs);
                 }
                 // (x + y) - y == x up to the sign of zero; all four operator forms
                 let sum_then_sub: Vec<f64> = ((x + y) - y).iter().collect();
